@@ -63,6 +63,10 @@ class Oracle:
         if self.mode == "seeded":
             v = self._rng._randbelow(n) if kind == "b" else None
             if kind == "r":
+                if self.grid:                     # seeded-grid: a uniformly chosen point of the aligned grid
+                    j = self._rng._randbelow(self.grid)
+                    self.trail.append(["r", self.grid, j])
+                    return (2 * j + 1) / (2.0 * self.grid)
                 x = self._rng.random()
                 self.trail.append(["r", 0, x])
                 return x
@@ -96,8 +100,8 @@ class Oracle:
         return (2 * j + 1) / (2.0 * w)
 
     # -- drivers ----------------------------------------------------------
-    def run_seeded(self, seed, fn):
-        self.mode, self._rng, self.trail = "seeded", _random.Random(seed), []
+    def run_seeded(self, seed, fn, grid=None):
+        self.mode, self._rng, self.trail, self.grid = "seeded", _random.Random(seed), [], grid
         self._install()
         try:
             return fn()
